@@ -128,6 +128,7 @@ class Table:
         self.max_paths = max_paths
         self.rows = []        # (constraints list, result)
         self.effects = []     # parallel to rows: [(canonical place, Val)] stores through references / upvars on that path
+        self.calls = []       # parallel to rows: [(callee, [argument descriptions])] in path order
         self._mem = {}
         self._run()
 
@@ -256,6 +257,7 @@ class Table:
             if k == "return":
                 rows.append((list(cons), env.get(0, Val("sym", "?"))))
                 self.effects.append(list(env.get(("eff",), ())))
+                self.calls.append(list(env.get(("calls",), ())))
                 if len(rows) > self.max_paths:
                     raise TooComplex("too many paths in %s" % body.npath)
                 return
@@ -269,6 +271,7 @@ class Table:
                 nm = norm(t.get("resolved") or t.get("callee") or "<fnptr>")
                 args = [self.val_of_operand(a, env) for a in t["args"]]
                 desc = "%s(%s)" % (nm.split("::")[-1], ",".join(vdesc(a) for a in args))
+                env[("calls",)] = env.get(("calls",), ()) + ((nm, tuple(vdesc(a) for a in args)),)
                 if not t["dst"]["p"]:
                     env[t["dst"]["l"]] = Val("call", (nm, desc))
                 if t["target"] is None:
